@@ -271,6 +271,11 @@ func runC15(r *Run) {
 		filterCase("filter[real selector layout, 13 opaque gates]", realSel, realGroups, nReal, 5),
 		filterCase("filter[one group, 3 gates]", []uint64{0, 0, 0}, [][2]uint64{{0, 3}}, []int{2, 1, 3}, 3),
 		filterCase("filter[two groups]", []uint64{0, 0, 1, 1, 1}, [][2]uint64{{0, 2}, {2, 5}}, []int{1, 2, 2, 1, 3}, 4),
+		// groups that hold a single gate (a high-degree gate that cannot share a selector): with more than
+		// one group the filter of the lone gate is still (UNUSED - s), with one group it is 1
+		filterCase("filter[two groups, the second a single gate]", []uint64{0, 0, 1}, [][2]uint64{{0, 2}, {2, 3}}, []int{1, 2, 2}, 3),
+		filterCase("filter[three single-gate groups]", []uint64{0, 1, 2}, [][2]uint64{{0, 1}, {1, 2}, {2, 3}}, []int{2, 1, 1}, 3),
+		filterCase("filter[one group, one gate]", []uint64{0}, [][2]uint64{{0, 1}}, []int{2}, 2),
 	}
 	for _, c := range fcs {
 		if q := runFieldCase(r, "gate-filters", c, nil); q != nil {
